@@ -61,13 +61,18 @@ pub fn trivia_run(rng: &mut Rng, lay: &Layout, after: Option<(K, &str)>, uid: &m
             if lay.non_ascii && rng.chance(1, 3) {
                 s.push_str(*rng.pick(&["/* é∑ */", "/*日本*/", "/* “q” */"]));
             } else {
-                s.push_str(*rng.pick(&["/* c */", "/**/", "/* \"q */", "/* // */", "/* a\n b */", "/***/"]));
+                // the last ones: bodies that begin with a slash or play with the delimiters (the opener's star is not
+                // the terminator's star; an opener inside a comment opens nothing)
+                s.push_str(*rng.pick(&[
+                    "/* c */", "/**/", "/* \"q */", "/* // */", "/* a\n b */", "/***/", "/*/ x /**/", "/*//*/", "/*/*/", "/*/ */", "/* /* */", "/** / **/",
+                    "/*\\*/", "/*`x*/",
+                ]));
             }
         } else if k < 85 && lay.comments {
             if lay.non_ascii && rng.chance(1, 3) {
                 s.push_str(*rng.pick(&["// ünï\n", "// → x\r\n"]));
             } else {
-                s.push_str(*rng.pick(&["// c\n", "//\n", "// \"q /* x\n", "// c\r\n"]));
+                s.push_str(*rng.pick(&["// c\n", "//\n", "// \"q /* x\n", "// c\r\n", "//*/\n", "///* x\n", "// `x\n"]));
             }
         } else if k < 95 && lay.directives {
             // every directive piece is followed by a blank or newline inside the run
